@@ -4,4 +4,7 @@ G(n) == [op |-> "get", n |-> n]
 P(n) == [op |-> "put", n |-> n]
 Prog2 == <<<<G(1), P(1)>>, <<G(1), P(1)>>>>
 Prog3 == <<<<G(1), P(1)>>, <<G(1), G(2), P(1), P(2)>>, <<G(2), P(2)>>>>
+\* the last references, one per thread, released concurrently (nobody else holds one)
+Last2 == <<<<P(1)>>, <<P(1)>>>>
+Last3 == <<<<P(1), P(2)>>, <<P(2), P(1)>>, <<P(1), P(2)>>>>
 ====
